@@ -63,6 +63,45 @@ theorem zcall_stuck (s : ZState) (n : Nat) (h1 : s.rem = []) (h2 : s.fin = .more
   unfold zcall
   simp [h1, h2, h3]
 
+/-- a call that returned `Z_OK` leaves a stream that is no longer fresh -/
+theorem zcall_ok_notfresh (s : ZState) (n : Nat) (h : (zcall s n).rc = ZRc.ok) :
+    (zcall s n).st.fresh = false := by
+  revert h; unfold zcall
+  split
+  · simp
+  · split
+    · split <;> simp
+    · simp
+
+/-- `Z_OK` with nothing left pending means the stream is unfinished -/
+theorem zcall_ok_rem_nil (s : ZState) (n : Nat) (h : (zcall s n).rc = ZRc.ok)
+    (hr : (zcall s n).st.rem = []) : (zcall s n).st.fin = .more := by
+  revert h hr; unfold zcall
+  split
+  · simp
+  · split
+    · split
+      · simp
+      · rename_i hgt _
+        intro _ hr
+        simp only at hr
+        have h1 := congrArg List.length hr
+        simp at h1
+        omega
+    · intro h _
+      cases hf : s.fin <;> simp [hf] at h ⊢
+
+/-- a call without output space on a stream that was called before: no progress, unless nothing
+is pending and the stream is finished or broken -/
+theorem zcall_zero (s : ZState) (hnf : s.fresh = false) :
+    (zcall s 0).rc = ZRc.bufError ∨ (s.rem = [] ∧ s.fin ≠ .more) := by
+  unfold zcall
+  simp only [hnf, Bool.false_and, Bool.false_eq_true, if_false]
+  by_cases hr : s.rem.length > 0
+  · simp [hr]
+  · have : s.rem = [] := List.length_eq_zero_iff.mp (by omega)
+    cases hf : s.fin <;> simp [this]
+
 /-! ### one record -/
 
 /-- **well-formed record**: pending output `[size BE32] ++ d ++ rest` with `1 ≤ |d| ≤ limit`; the
@@ -352,6 +391,49 @@ theorem readRecord_tiny (env : Env) (limit : Nat) (st : ZState) (h : st.rem.leng
       rw [hsplit]; simp only [List.length_append]
     omega
 
+/-- a record announcing zero bytes is refused, however the stream is made or continues: the second
+`inflate` call has no output space and cannot make progress (`Z_BUF_ERROR`), or the first one
+already returned `Z_STREAM_END` -/
+theorem readRecord_zero (env : Env) (limit : Nat) (st : ZState) (more : Bytes)
+    (hrem : st.rem = be32 0 ++ more) : readRecord env limit st = none := by
+  cases h : readRecord env limit st with
+  | none => rfl
+  | some p =>
+    obtain ⟨d, st'⟩ := p
+    obtain ⟨szb, h4, hrd, _, hsplit⟩ := readRecord_sound env limit st d st' h
+    exfalso
+    rw [hrem, List.append_assoc] at hsplit
+    have hszb : be32 0 = szb := List.append_inj_left hsplit (by simp [be32_length, h4])
+    rw [← hszb, rd32_be32' 0 (by decide)] at hrd
+    have hd : d = [] := List.length_eq_zero_iff.mp hrd.symm
+    -- so the record loop's second call asked for 0 bytes and was accepted: impossible
+    subst hd
+    unfold readRecord at h
+    simp only [] at h
+    generalize hsz : (if (zcall st 4).bytes.length = 4 then rd32 (zcall st 4).bytes else env.garbage) = size at h
+    by_cases hrc : ((zcall st 4).rc != ZRc.ok) = true
+    · rw [if_pos hrc] at h; cases h
+    rw [if_neg hrc] at h
+    by_cases hlim : size > limit
+    · rw [if_pos hlim] at h; cases h
+    rw [if_neg hlim] at h
+    by_cases hr2 : ((zcall (zcall st 4).st size).rc != ZRc.ok && (zcall (zcall st 4).st size).rc != ZRc.streamEnd) = true
+    · rw [if_pos hr2] at h; cases h
+    rw [if_neg hr2] at h
+    by_cases hlen : ((zcall (zcall st 4).st size).bytes.length != size) = true
+    · rw [if_pos hlen] at h; cases h
+    rw [if_neg hlen] at h
+    simp only [Option.some.injEq, Prod.mk.injEq] at h
+    have hlen' : (zcall (zcall st 4).st size).bytes.length = size := by simpa using hlen
+    rw [h.1] at hlen'
+    have hs0 : size = 0 := by simpa using hlen'.symm
+    subst hs0
+    have hrc' : (zcall st 4).rc = ZRc.ok := by simpa using hrc
+    have hnf := zcall_ok_notfresh st 4 hrc'
+    rcases zcall_zero (zcall st 4).st hnf with hk | ⟨hk1, hk2⟩
+    · simp [hk] at hr2
+    · exact hk2 (zcall_ok_rem_nil st 4 hrc' hk1)
+
 /-! ### SetEncodings -/
 
 theorem countExt_flatMap (encs : List Nat) (h : ∀ e ∈ encs, e < 4294967296) :
@@ -486,6 +568,57 @@ theorem stepMsg_ext_oversize (Z : Zlib) (env : Env) (cfg : Cfg) (cl : Cl) (p1 p2
   rw [if_pos (by decide), stepCut_hdr Z env cfg cl 6 p1 p2 p3 _ (neg32_lt _) tail]
   simp [he, hge, hnn, h1]
 
+/-- a `next` step leaves the client open, a `closed` step leaves it closed -/
+def StepWF (st : Step) : Prop :=
+  match st with
+  | .next cl' _ _ _ => cl'.isOpen = true
+  | .closed cl' _ _ => cl'.isOpen = false
+  | .unmodelled => True
+
+theorem StepWF_ite (c : Prop) [Decidable c] (a b : Step) (ha : c → StepWF a) (hb : ¬c → StepWF b) :
+    StepWF (if c then a else b) := by
+  split
+  · exact ha ‹_›
+  · exact hb ‹_›
+
+theorem stepMsg_wf (Z : Zlib) (env : Env) (cfg : Cfg) (cl : Cl) (input : Bytes) (ho : cl.isOpen = true) :
+    StepWF (stepMsg Z env cfg cl input) := by
+  have hcl : ∀ a b, StepWF (Step.closed (closeCl cl) a b) := fun a b => by simp [StepWF, closeCl]
+  unfold stepMsg
+  cases input with
+  | nil => simp [StepWF]
+  | cons t rest =>
+    simp only []
+    refine StepWF_ite _ _ _ (fun _ => ?_) (fun _ => ?_)
+    · unfold stepCut
+      simp only []
+      refine StepWF_ite _ _ _ (fun _ => hcl _ _) (fun _ => ?_)
+      refine StepWF_ite _ _ _ (fun _ => hcl _ _) (fun _ => ?_)
+      refine StepWF_ite _ _ _ (fun _ => hcl _ _) (fun _ => ?_)
+      refine StepWF_ite _ _ _ (fun _ => ?_) (fun _ => by simp [StepWF, ho])
+      refine StepWF_ite _ _ _ (fun h => by simpa [StepWF] using h) (fun h => by simpa [StepWF] using h)
+    · refine StepWF_ite _ _ _ (fun _ => ?_) (fun _ => by simp [StepWF])
+      unfold stepEnc
+      split
+      · simp only []
+        refine StepWF_ite _ _ _ (fun _ => hcl _ _) (fun _ => ?_)
+        refine StepWF_ite _ _ _ (fun _ => by simp [StepWF, ho]) (fun _ => by simp [StepWF, ho])
+      · exact hcl _ _
+
+theorem stepMsg_next_open (Z : Zlib) (env : Env) (cfg : Cfg) (cl : Cl) (input : Bytes) (cl' : Cl)
+    (cbs : List Cb) (out : List SMsg) (k : Nat) (ho : cl.isOpen = true)
+    (h : stepMsg Z env cfg cl input = .next cl' cbs out k) : cl'.isOpen = true := by
+  have := stepMsg_wf Z env cfg cl input ho
+  rw [h] at this
+  exact this
+
+theorem stepMsg_closed_closed (Z : Zlib) (env : Env) (cfg : Cfg) (cl : Cl) (input : Bytes) (cl' : Cl)
+    (cbs : List Cb) (out : List SMsg) (ho : cl.isOpen = true)
+    (h : stepMsg Z env cfg cl input = .closed cl' cbs out) : cl'.isOpen = false := by
+  have := stepMsg_wf Z env cfg cl input ho
+  rw [h] at this
+  exact this
+
 /-- bounded quantification over the format bits 1..15 from a decidable statement -/
 theorem bits_of_range (f : Nat) (h : ∀ i ∈ List.range 16, 1 ≤ i → f.testBit i = false) :
     ∀ i, 1 ≤ i → i < 16 → f.testBit i = false :=
@@ -535,5 +668,16 @@ theorem cliFeed_drop (Z : Zlib) (env : Env) (c : LC) (t : UInt8) (rest : Bytes)
     cliFeed Z env c (t :: rest) = ⟨c, [], true, false⟩ := by
   rw [cliFeed]
   simp only [h]
+
+/-- LibVNCClient: a sign-encoded length above the message limit fails the read loop -/
+theorem cliStepMsg_ext_oversize (Z : Zlib) (env : Env) (c : LC) (p1 p2 p3 : UInt8) (n : Nat)
+    (tail : Bytes) (h1 : n > cliMsgLimit) (h2 : n ≤ 2147483648) :
+    cliStepMsg Z env c ((3 : UInt8) :: p1 :: p2 :: p3 :: (be32 (neg32 n) ++ tail)) = .drop := by
+  have hlim : cliMsgLimit = 1048576 := rfl
+  have hge := neg32_ge n (by omega) h2
+  have hnn := neg32_neg32 n (by omega)
+  simp only [cliStepMsg]
+  rw [if_pos (by decide), cliStepCut_hdr Z env c 3 p1 p2 p3 _ (neg32_lt _) tail]
+  simp [hge, hnn, h1]
 
 end VncModel.Clip
